@@ -187,6 +187,7 @@ func (c *SchemaCtx) IssueFromCoerce(err error) *ZogIssue {
 	e := ZogIssuePool.Get().(*ZogIssue)
 	e.Code = zconst.IssueCodeCoerce
 	e.Path = c.Path.String()
+	e.Params = nil
 	e.Message = ""
 	e.Dtype = c.DType
 	e.Value = c.Data
